@@ -123,6 +123,15 @@ main(void)
     VASSERT(storage_start(dev) == Device_Ok, "start failed although open succeeds");
     uint64_t off0 = ND(uint64_t);
     VASSUME(off0 <= (((uint64_t)1) << 62)); /* files below 4 EiB */
+    /* one pwrite call of this append may fail outright (-1 with an arbitrary errno, EINTR included) or
+     * write nothing: the append then either fails (and the device leaves Running) or, if it reports
+     * success, every byte still went to the right place (checked at each accepted pwrite) */
+    fs_faults_enabled = 1;
+    fs_fail_open_at = -1; fs_fail_flock_at = -1; fs_fail_pwrite_from = -1;
+    fs_fail_pwrite_at = ND(int8_t);
+    VASSUME(fs_fail_pwrite_at >= -1 && fs_fail_pwrite_at <= 5);
+    fs_fail_errno = ND(uint8_t);
+    VASSUME(fs_fail_errno == 4 || fs_fail_errno == 5 || fs_fail_errno == 11 || fs_fail_errno == 28);
     raw->offset = off0;
     size_t n = ND(uint8_t);
     VASSUME(n <= PMAX);
@@ -158,6 +167,15 @@ main(void)
     VASSERT(storage_start(dev) == Device_Ok, "start failed although open succeeds");
     uint64_t off0 = ND(uint64_t);
     VASSUME(off0 <= (((uint64_t)1) << 62));
+    /* one pwrite call of this append may fail outright (-1 with an arbitrary errno, EINTR included) or
+     * write nothing: the append then either fails (and the device leaves Running) or, if it reports
+     * success, every byte still went to the right place (checked at each accepted pwrite) */
+    fs_faults_enabled = 1;
+    fs_fail_open_at = -1; fs_fail_flock_at = -1; fs_fail_pwrite_from = -1;
+    fs_fail_pwrite_at = ND(int8_t);
+    VASSUME(fs_fail_pwrite_at >= -1 && fs_fail_pwrite_at <= 5);
+    fs_fail_errno = ND(uint8_t);
+    VASSUME(fs_fail_errno == 4 || fs_fail_errno == 5 || fs_fail_errno == 11 || fs_fail_errno == 28);
     raw->offset = off0;
     int nf = ND(uint8_t);
     VASSUME(nf >= 1 && nf <= FR_MAX);
